@@ -7,9 +7,12 @@
    Round 7 (end of file; Model/EffectsR7.v): non_negative_tucker (in-place multiplicative updates on the tl.abs copies of a user init) and
    monotonicity_prox / unimodality_prox (index_update into a copy taken before the flip / reshape views), generic in every size, with the
    seeded-defect FAMILIES `by reference instead of tl.abs` / `a view instead of a copy` and their visibility conditions; try statements inside
-   callees and loops (xcmd, any oracle) with the instance non_negative_tucker_hals(algorithm="active_set"); the Tucker_NN estimator class. *)
+   callees and loops (xcmd, any oracle) with the instance non_negative_tucker_hals(algorithm="active_set"); the Tucker_NN estimator class.
+   Round 8 (end of file; Model/EffectsR8.v): STRUCTURED exceptions with arbitrary nesting (ycmd: a try statement inside a try body, a handler,
+   a callee, a loop; handlers that raise; exceptions that reach the caller) with the instances initialize_cp seen from parafac /
+   non_negative_parafac_hals for every order; non_negative_tucker_hals (fista) and the Tucker_NN_HALS class for every order. *)
 From Coq Require Import List Arith ZArith Bool.
-From TLV Require Import Model.Effects Proofs.EffectsProofs Proofs.EffectsProofsSk Proofs.EffectsProofsGen Proofs.EffectsProofsPaths Proofs.EffectsProofsReach Proofs.EffectsProofsR5 Proofs.EffectsProofsMono Proofs.EffectsProofsTry Model.EffectsR7 Proofs.EffectsProofsR7 Proofs.EffectsProofsR7Try Corr.C15.
+From TLV Require Import Model.Effects Proofs.EffectsProofs Proofs.EffectsProofsSk Proofs.EffectsProofsGen Proofs.EffectsProofsPaths Proofs.EffectsProofsReach Proofs.EffectsProofsR5 Proofs.EffectsProofsMono Proofs.EffectsProofsTry Model.EffectsR7 Proofs.EffectsProofsR7 Proofs.EffectsProofsR7Try Model.EffectsR8 Proofs.EffectsProofsR8 Corr.C15.
 Import ListNotations.
 
 (* the frame theorem *)
@@ -691,3 +694,125 @@ Theorem C15_nn_tucker_class_fit_frame : forall N sweeps normalize modes (self X 
   nth_error (snd (exec (sk_estimator_fit 1 (sk_nn_tucker_gen N sweeps normalize modes) 25) (env0 [self; X], h0))) o = nth_error h0 o.
 Proof. exact nn_tucker_class_fit_frame. Qed.
 Print Assumptions C15_nn_tucker_class_fit_frame.
+
+
+(* ================================================================== ROUND 8 *)
+(* ------------------------------------------------------------------ structured exceptions, ANY nesting (Model.EffectsR8.ycmd).
+   The body and the handler of a try statement are programs of the same language (try inside a try body, inside a handler, inside
+   a callee called from a try body, inside loops), `YRaise` raises unconditionally (`except ..: raise Other(..)`), a handler may be
+   interrupted like any other code, and an exception no handler catches crosses loops and callers and reaches the top level.  The
+   oracle gives, for every plain command in EXECUTION order, the number of primitive effects after which it raises.  Accepted by
+   `ysafe` => for EVERY oracle nothing of the caller's heap changes, whether the call returns or raises (third component of the
+   outcome); with documented in-place parameters: nothing outside their reachable region. *)
+Theorem C15_frame_ycmd :
+  (forall (t : ycmd) (args : list ref) (h0 : heap),
+     ysafe (length args) t = true ->
+     forall ns o, o < length h0 -> nth_error (snd (fst (fst (yexec t ns (env0 args, h0))))) o = nth_error h0 o) /\
+  (forall (t : ycmd) (args : list (ref * bool)) (h0 : heap),
+     ysafe_with (map snd args) t = true ->
+     closed_heap h0 -> closed_args h0 (inplace_roots args) ->
+     forall ns o, o < length h0 -> ~ reach h0 (inplace_roots args) o ->
+     nth_error (snd (fst (fst (yexec t ns (env0 (map fst args), h0))))) o = nth_error h0 o).
+Proof. exact (conj frame_ycmd frame_ycmd_inplace). Qed.
+Print Assumptions C15_frame_ycmd.
+
+(* what the nesting-free fragments become: a plain command under the exception semantics is accepted iff `safe_with` accepts it
+   (it is `run`); a handler that only re-raises adds nothing (a remark of the manifest up to round 7, now a theorem); a callee whose
+   whole body is such a try statement followed by plain code is accepted exactly when the plain program is *)
+Theorem C15_ycmd_fragments :
+  (forall flags c, ysafe_with flags (YPlain c) = safe_with flags c) /\
+  (forall flags c, ysafe_with flags (ytry_reraise (YPlain c)) = safe_with flags c) /\
+  (forall flags x c args ret rest,
+     ysafe_with flags (yseq [YCall x (ytry_reraise (YPlain c)) args ret; YPlain rest]) = safe_with flags (Seq (Call x c args ret) rest)).
+Proof. exact (conj ysafe_plain (conj ysafe_try_reraise ysafe_call_reraise_then_plain)). Qed.
+Print Assumptions C15_ycmd_fragments.
+
+(* initialize_cp with a user init - the WHOLE branch is the body of `try: .. except ValueError: raise ValueError(..)` - alone and
+   as the callee of parafac / non_negative_parafac_hals: every order N, sweep count, option-list length, update order, every oracle *)
+Theorem C15_ycmd_cp_family_frame :
+  ((forall N, ysafe 2 (yc_initialize_cp_gen N) = true) /\
+   (forall N sweeps fmlen rm modes, ysafe 4 (yc_parafac_gen N sweeps fmlen rm modes) = true) /\
+   (forall N sweeps sclen fmlen fixed modes, ysafe 4 (yc_nn_parafac_hals_gen N sweeps sclen fmlen fixed modes) = true)) /\
+  ((forall N (args : list ref) (h0 : heap) ns o, length args = 2 -> o < length h0 ->
+      nth_error (snd (fst (fst (yexec (yc_initialize_cp_gen N) ns (env0 args, h0))))) o = nth_error h0 o) /\
+   (forall N sweeps fmlen rm modes (args : list ref) (h0 : heap) ns o, length args = 4 -> o < length h0 ->
+      nth_error (snd (fst (fst (yexec (yc_parafac_gen N sweeps fmlen rm modes) ns (env0 args, h0))))) o = nth_error h0 o) /\
+   (forall N sweeps sclen fmlen fixed modes (args : list ref) (h0 : heap) ns o, length args = 4 -> o < length h0 ->
+      nth_error (snd (fst (fst (yexec (yc_nn_parafac_hals_gen N sweeps sclen fmlen fixed modes) ns (env0 args, h0))))) o = nth_error h0 o)).
+Proof. exact (conj (conj yc_initialize_cp_gen_ysafe (conj yc_parafac_gen_ysafe yc_nn_parafac_hals_gen_ysafe)) yc_cp_family_frame). Qed.
+Print Assumptions C15_ycmd_cp_family_frame.
+
+(* vonneumann_entropy (the handler calls eigh a second time and may raise itself: that exception reaches the caller),
+   tensor_train_cross (a re-raising try inside the right-to-left loop inside the iteration loop; 2 x 3 iterations),
+   non_negative_tucker_hals(algorithm="active_set") (try statements in the callee, order 3, two outer sweeps): vm_compute *)
+Theorem C15_ycmd_entry_points_frame :
+  (ysafe 1 yc_vonneumann_entropy = true /\ ysafe 2 (yc_tt_cross 2 3) = true /\ ysafe 4 yc_nn_tucker_hals_active_set = true) /\
+  ((forall (args : list ref) (h0 : heap) ns o, length args = 1 -> o < length h0 ->
+      nth_error (snd (fst (fst (yexec yc_vonneumann_entropy ns (env0 args, h0))))) o = nth_error h0 o) /\
+   (forall (args : list ref) (h0 : heap) ns o, length args = 2 -> o < length h0 ->
+      nth_error (snd (fst (fst (yexec (yc_tt_cross 2 3) ns (env0 args, h0))))) o = nth_error h0 o) /\
+   (forall (args : list ref) (h0 : heap) ns o, length args = 4 -> o < length h0 ->
+      nth_error (snd (fst (fst (yexec yc_nn_tucker_hals_active_set ns (env0 args, h0))))) o = nth_error h0 o)).
+Proof. exact (conj yc_entry_points_ysafe yc_entry_points_frame). Qed.
+Print Assumptions C15_ycmd_entry_points_frame.
+
+(* non-vacuity and sensitivity - what ONLY nesting expresses.  yc_nested_bad: the work variable designates the caller's array
+   until the INNER handler replaces it by a copy; the outer handler writes through it.  Rejected, although the inner try statement
+   alone is accepted; under the oracle [5; 5; 0; 5] (inner body completes, the statement after the inner try raises at once, the
+   outer handler completes) the caller's array is scaled and the call RETURNS; when the inner body raises first the copy is
+   scaled instead; when the outer handler raises too the exception reaches the caller.  A try statement inside a HANDLER:
+   accepted with the copy, rejected (and the array changes) without. *)
+Example C15_ycmd_nesting_demo :
+  ysafe 1 yc_nested_good = true /\ ysafe 1 yc_nested_bad = false /\
+  ysafe 1 (yseq [YPlain (Rebind 10 0); YTry (YPlain (Alloc 11 2)) (YPlain (Copy 10 0)); YPlain (Alloc 12 2)]) = true /\
+  ysafe 1 (YTry (YPlain (seq [Rebind 10 0; Copy 10 0; Alloc 12 2])) (YPlain (InplaceOp 10 3))) = false /\
+  yexec yc_nested_bad [5; 5; 0; 5] (env0 y_args, y_heap) <> yexec yc_nested_bad [] (env0 y_args, y_heap) /\
+  nth_error (snd (fst (fst (yexec yc_nested_bad [5; 5; 0; 5] (env0 y_args, y_heap))))) 0 = Some (OBuf [15; 21]%Z) /\
+  snd (yexec yc_nested_bad [5; 5; 0; 5] (env0 y_args, y_heap)) = false /\
+  nth_error (snd (fst (fst (yexec yc_nested_bad [5; 0; 5; 0; 5] (env0 y_args, y_heap))))) 0 = Some (OBuf [5; 7]%Z) /\
+  snd (yexec yc_nested_bad [5; 5; 0; 0] (env0 y_args, y_heap)) = true /\
+  firstn 1 (snd (fst (fst (yexec yc_nested_good [5; 5; 0; 5] (env0 y_args, y_heap))))) = y_heap /\
+  ysafe 1 (yc_handler_try (Copy 10 0)) = true /\ ysafe 1 (yc_handler_try (Rebind 10 0)) = false /\
+  nth_error (snd (fst (fst (yexec (yc_handler_try (Rebind 10 0)) [1; 0; 5] (env0 y_args, y_heap))))) 0 = Some (OBuf [15; 21]%Z) /\
+  firstn 1 (snd (fst (fst (yexec (yc_handler_try (Copy 10 0)) [1; 0; 5] (env0 y_args, y_heap))))) = y_heap.
+Proof. exact ycmd_nesting_demo. Qed.
+
+(* try / finally as a derived form: the epilogue runs on both exits and the exception stays in flight *)
+Example C15_ytry_finally_demo :
+  snd (yexec (ytry_finally (YPlain (Alloc 11 2)) (YPlain (Alloc 12 2))) [0; 5] (env0 y_args, y_heap)) = true /\
+  length (snd (fst (fst (yexec (ytry_finally (YPlain (Alloc 11 2)) (YPlain (Alloc 12 2))) [0; 5] (env0 y_args, y_heap))))) = 2 /\
+  snd (yexec (ytry_finally (YPlain (Alloc 11 2)) (YPlain (Alloc 12 2))) [5; 5] (env0 y_args, y_heap)) = false /\
+  length (snd (fst (fst (yexec (ytry_finally (YPlain (Alloc 11 2)) (YPlain (Alloc 12 2))) [5; 5] (env0 y_args, y_heap))))) = 3 /\
+  ysafe 1 (ytry_finally (YPlain (Rebind 10 0)) (YPlain (InplaceOp 10 3))) = false /\
+  ysafe 1 (ytry_finally (YPlain (Copy 10 0)) (YPlain (InplaceOp 10 3))) = true.
+Proof. exact ytry_finally_demo. Qed.
+
+(* ------------------------------------------------------------------ non_negative_tucker_hals (fista core update) with a user init and the
+   estimator class Tucker_NN_HALS: EVERY order N, number of sweeps, number of fista iterations, lengths of the option lists, removal
+   of the last mode from fixed_modes, fixed-mode pattern, update order, with or without normalisation (Hoare-style induction;
+   invariant: the factor list is run-allocated, pseudo_inverse is unset or a run-allocated list copy; fista never writes - lemma
+   nowrite_total).  Accepted => framed, also when interrupted; the class changes exactly the receiver. *)
+Theorem C15_nn_tucker_hals_any_order_frame :
+  (forall N sweeps fiters sclen fmlen rm fixed modes normalize,
+     safe 4 (sk_nn_tucker_hals_gen N sweeps fiters sclen fmlen rm fixed modes normalize) = true) /\
+  (forall N sweeps fiters sclen fmlen rm fixed modes normalize (args : list ref) (h0 : heap) (n o : nat),
+     length args = 4 -> o < length h0 ->
+     nth_error (snd (fst (run (sk_nn_tucker_hals_gen N sweeps fiters sclen fmlen rm fixed modes normalize) n (env0 args, h0)))) o = nth_error h0 o) /\
+  (forall N sweeps fiters sclen fmlen rm fixed modes normalize (self X : ref) (h0 : heap) (o : nat),
+     o < length h0 -> target self <> Some o ->
+     nth_error (snd (exec (sk_estimator_fit 3 (sk_nn_tucker_hals_gen N sweeps fiters sclen fmlen rm fixed modes normalize) 25) (env0 [self; X], h0))) o
+       = nth_error h0 o).
+Proof. exact (conj nn_tucker_hals_gen_safe (conj nn_tucker_hals_gen_frame nn_tucker_hals_class_fit_frame)). Qed.
+Print Assumptions C15_nn_tucker_hals_any_order_frame.
+
+(* two cooperating seeded sites in two functions (order 3): hals_nnls on the transposed VIEW instead of its copy, and an
+   initialisation that passes arrays without a negative entry by reference - each accepted alone, rejected together, and the
+   caller's factor A (object 2) changes; the code itself: empty footprint *)
+Example C15_nn_tucker_hals_cooperating_defects :
+  safe 4 (nn_tucker_hals_body (sk_initialize_tucker_nn_gen 3) hals_mode_nocopy 3 1 1 3 1 None [] [0; 1; 2] false) = true /\
+  safe 4 (nn_tucker_hals_body (mut_initialize_tucker_nn 3 [0] false) (hals_mode_gen 24) 3 1 1 3 1 None [] [0; 1; 2] false) = true /\
+  safe 4 (nn_tucker_hals_body (mut_initialize_tucker_nn 3 [0] false) hals_mode_nocopy 3 1 1 3 1 None [] [0; 1; 2] false) = false /\
+  footprint (nn_tucker_hals_body (mut_initialize_tucker_nn 3 [0] false) hals_mode_nocopy 3 1 1 3 1 None [] [0; 1; 2] false)
+            [RObj 0 [0; 1; 2; 3]; RObj 6 []; RNull; RNull] r7_heap = [2] /\
+  footprint (sk_nn_tucker_hals_gen 3 2 2 3 1 None [] [0; 1; 2] true) [RObj 0 [0; 1; 2; 3]; RObj 6 []; RNull; RNull] r7_heap = [].
+Proof. exact nn_tucker_hals_cooperating. Qed.
